@@ -1127,6 +1127,13 @@ def binop(frame, op, a, b):
             return f(a, b)
         except Exception as e:
             raise RaiseEx(e)
+    from .symx import GuardedList as _GLb
+    if isinstance(op, ast.Add) and (isinstance(a, _GLb) or isinstance(b, _GLb)) and \
+            all(isinstance(x, (_GLb, list)) for x in (a, b)):
+        # concatenation of lists whose elements are present under guards
+        ia = a.items if isinstance(a, _GLb) else [(None, x) for x in a]
+        ib = b.items if isinstance(b, _GLb) else [(None, x) for x in b]
+        return _GLb(list(ia) + list(ib))
     if isinstance(a, (list, tuple)) or isinstance(b, (list, tuple)):
         if isinstance(op, ast.Add):
             return a + b
